@@ -194,11 +194,94 @@ def choose_radius(rng, rec, maxK, nuc, target=None, budget=6.0e4):
     return None
 
 
+def gen_rod(rng, row):
+    """A straight rod of 7-9 carbon atoms in a P1 / P-1 cell of 11-15 A with acute angles, lying along a lattice direction with
+    components of opposite sign: its extreme fractional coordinates are reached at its ends, which are NOT the corners of its
+    Cartesian bounding box."""
+    import numpy as np
+    n = 48
+    for _ in range(300):
+        d = [rng.randint(9, 20) for _ in range(3)]
+        cs = [rng.choice([0.3, 0.4, 0.5, 0.6]) for _ in range(3)]
+        gram = [[d[0], 0, 0], [0, d[1], 0], [0, 0, d[2]]]
+        for (i, j), c in zip(((0, 1), (0, 2), (1, 2)), cs):
+            gram[i][j] = gram[j][i] = int(round(c * math.sqrt(d[i] * d[j])))
+        if not xtal.positive_definite(gram) or xtal.det3(gram) * 6 < d[0] * d[1] * d[2]:
+            continue
+        u = rng.uniform(10.0, 13.0) / math.sqrt(max(d))
+        u2m = int(round(u * u * 1e6))
+        u = math.sqrt(u2m / 1e6)
+        s2 = u * u / (n * n)
+        rr = range(-9, 10)
+        cand = np.array([(a, b, c) for a in rr for b in rr for c in rr if min(a, b, c) < 0 < max(a, b, c)], dtype=np.int64)
+        d2 = xtal._gdot(gram, cand) * s2
+        steps = cand[(d2 >= 1.2 ** 2) & (d2 <= 1.45 ** 2)]
+        if len(steps) == 0:
+            continue
+        k = rng.randint(7, 9)
+        # prefer directions whose ends stick out furthest (in fractional coordinates, on the low side) beyond the two
+        # corners of the Cartesian bounding box; cell in the standard orientation a || x, b in the xy plane
+        (la, lb, lc), (al, be, ga) = xtal.cell_params(gram, u)
+        cx = lc * math.cos(be)
+        cy = lc * (math.cos(al) - math.cos(be) * math.cos(ga)) / math.sin(ga)
+        D = np.array([[la, 0, 0], [lb * math.cos(ga), lb * math.sin(ga), 0], [cx, cy, math.sqrt(max(lc * lc - cx * cx - cy * cy, 1e-9))]])
+        Dinv = np.linalg.inv(D)
+        ends = (steps * (k - 1) / float(n)) @ D                     # Cartesian end-to-end vectors
+        lo, hi = np.minimum(ends, 0.0), np.maximum(ends, 0.0)
+        fl, fh, fe = lo @ Dinv, hi @ Dinv, ends @ Dinv
+        deficit = np.max(np.minimum(fl, fh) - np.minimum(fe, 0.0), axis=1)
+        best = np.argsort(-deficit)[:max(3, len(steps) // 8)]
+        v = steps[int(best[rng.randrange(len(best))])] if rng.random() < 0.8 else steps[rng.randrange(len(steps))]
+        p0 = np.array([rng.randint(-6, n + 6) for _ in range(3)], dtype=np.int64)
+        pts = [p0 + i * v for i in range(k)]
+        asym = [{"z": 6, "p": [int(x) for x in p], "occ": 12, "label": "C%d" % (i + 1)} for i, p in enumerate(pts)]
+        # all images (P1: lattice translates; P-1: the inverted rod too) at least 2.4 A away from the rod
+        ops = row["ops"]
+        allp = []
+        ok = True
+        for s in asym:
+            for c in ops:
+                allp.append(xtal.apply_grid(c, s["p"], n))
+        if len(set(allp)) != len(allp):
+            continue
+        uc = np.array(allp, dtype=np.int64)
+        cells = np.array([(a, b, c) for a in range(-2, 3) for b in range(-2, 3) for c in range(-2, 3)], dtype=np.int64) * n
+        own = {tuple(int(x) for x in p) for p in pts}
+        for p in pts:
+            base = (p // n) * n
+            q = uc[:, None, :] + cells[None, :, :] + base[None, None, :]
+            dd = xtal._gdot(gram, q - p[None, None, :]) * s2
+            for bi, ci in np.argwhere(dd < 2.4 ** 2):
+                if tuple(int(x) for x in q[bi, ci]) not in own:
+                    ok = False
+                    break
+            if not ok:
+                break
+        if not ok:
+            continue
+        return {"number": row["number"], "choice": row["choice"], "n": n, "gram": gram, "u": u, "u2m": u2m, "asym": asym,
+                "mols": [list(range(1, k + 1))], "bonds": [[i, i + 1] for i in range(1, k)], "route": rng.choice(["params", "vectors"]),
+                "src": "rod along a mixed-sign lattice direction in an acute cell"}
+    return None
+
+
 def gen(args):
     import random
     row, seed, mode, maxK = args
     rng = random.Random(seed)
     none = {"__none__": True, "meta": {}}
+    if mode == "rod":
+        rec = gen_rod(rng, row)
+        if rec is None:
+            return none
+        nuc = len(row["ops"]) * len(rec["asym"])
+        ch = choose_radius(rng, rec, 6, nuc, target=rng.uniform(2.4, 7.5), budget=9.0e4)
+        if ch is None:
+            return none
+        rec["radius"], rec["k"], rec["K"] = ch
+        rec["queries"] = [{"kind": "molecule_environments"}, {"kind": "molecular_shell", "mol_idx": 0},
+                          {"kind": "atom_group_surroundings", "atoms": list(range(len(rec["asym"])))}]
+        return rec
     if mode == "mol":
         rec = xtal.gen_molecular(rng, row, nmols=rng.choice([1, 1, 2]), sizes=(2, 3, 4), vol_per_atom=rng.choice([24.0, 32.0]),
                                  oblique=len(row["ops"]) <= 2)
@@ -346,6 +429,8 @@ def run(ctx):
     tri = [r for r in rows if r["number"] in (1, 2)]
     for j in range(ctx.pick(40, 1200)):
         jobs.append((tri[j % len(tri)], ctx.seed * 11 + 9000 + j, "mol-long", maxK))
+    for j in range(ctx.pick(60, 900)):
+        jobs.append((tri[j % len(tri)], ctx.seed * 23 + 12000 + j, "rod", maxK))
     recs = [x for x in pool_map(gen, jobs) if "__none__" not in x]
     ctx.notes["structures_generated"] = len(recs)
     traces = pool_map(drive, recs)
